@@ -10,5 +10,25 @@ claim("C05", "may-panic audit over go/ssa with host-nil taint + token-consumptio
       "Trusts the tokenizer github.com/jig/scanner v1.2.0 (terminates, well-formed tokens), regexp/strconv/strings; stack exhaustion on deep nesting outside the claim; 'terminates' is claimed only through the progress rule, no time bound.",
       "DESIGN.md §3 C05")
 
-for pid in ["C01","C02","C03","C06","C07","C08","C09","C10","C11","C12","C13","C14","C15","C16","C17","C18","C19","C20"]:
+claim("C02", "ownership/freshness analysis of container storage over go/ssa",
+      "Custom static analysis. Immutability of all values under all operation sequences follows from one invariant - published container storage is never written - and that invariant is a per-instruction ownership fact: every map update, delete, element store, copy destination and append base of lisp container type in the library must be storage allocated in the current activation (make, literal, append to fresh/nil, result of a function that returns fresh storage on every path, field of a local struct that only ever held fresh storage). Also: field stores on value structs go to local copies; the registration-time registry update is unreachable from evaluation; no reflection writes. Sufficient for the property under the stated assumptions; registered as 'other' because the analyser is unverified.",
+      "Flow-insensitive inside one activation (a write after the same activation already published the storage is not detected); atoms, futures and Env.data are out of scope by type; host Go functions must obey the same rule.",
+      "DESIGN.md §3 C02, §2 E")
+
+claim("C09", "lockset (must-hold) analysis + compare-and-set idiom recognition over go/ssa",
+      "Custom static analysis of the lock discipline every linearizable implementation of this design needs: Atom.Val/version accessed only under the atom's mutex (mode-correct; lock-required methods checked at their call sites); every acquire released on every return; no call that can reach the evaluator while an atom lock is held (non-reentrant RWMutex: self-deref or nested swaps would hang); swap! is a compare-and-set retry loop (value+version read in one section, update function applied outside any lock, install only under write lock when the version is unchanged, failure retries, loop polls the context, failing update function installs nothing); every store to Atom.Val increments the version.",
+      "Linearizability, real-time order and fairness are not decided. gensym/memoize in the lisp headers are covered only by C13.vocab's free-symbol lint.",
+      "DESIGN.md §3 C09, §2 F")
+
+claim("C10", "lockset analysis + ordering (dominance) rules over go/ssa",
+      "Custom static analysis: Future.Done/Cancelled accessed only under Future.mu in every function of the module; exactly one goroutine per future, outside loops, applying the function once; Done=true stored before every send of the outcome (deref returned implies done); every receive in Deref re-deposits the same value on the same channel and channels have capacity >= 1, no close(); Cancel is one write-locked critical section and calls the cancel function only on the not-done path; the body runs under a WithCancel child of the creator's context whose cancel function is CancelFunc; Deref waits on its caller's context.",
+      "History-level statements (monotonicity as observed by callers) beyond these happens-before edges are not decided.",
+      "DESIGN.md §3 C10")
+
+claim("C11", "lockset analysis over go/ssa + control-dependence of global writes",
+      "Custom static analysis: every access to Env.data holds that Env's mutex in the right mode or is on an Env allocated in the activation; the *NT methods are lock-required and every call site (static and through the EnvType interface) holds the lock of the same receiver, so the ascent to the outer scope must go through the locking entry points; acquire/release pairing; while a scope lock is held only the outer scope is locked (child-then-parent) and nothing that reaches the evaluator is called (the Update callback is resolved through its call sites); the only package-level variables written from the evaluator closure are the stepping flags, each write control-dependent on Stepper != nil. Fresh-scope discipline (C11.local) is decided by the scope rules of C01/C03.",
+      "'Returns exactly what it returns when run alone' is behaviour and not decided; races inside host builtins and process state are outside.",
+      "DESIGN.md §3 C11")
+
+for pid in ["C01","C03","C06","C07","C08","C12","C13","C14","C15","C16","C17","C18","C19","C20"]:
     NOT_APPLICABLE[pid] = "check under construction in this revision (static rules designed in DESIGN.md §3, not yet registered)"
